@@ -1,7 +1,7 @@
 (* The case language interpreter: one case (an s-expression) in, one canonical result line out.
    The same function is evaluated in-kernel (vm_compute) and extracted to OCaml. *)
 From Coq Require Import Strings.String.
-From Iso Require Import Model.Base Model.Sexp Model.Padding Model.Encoding Model.Prefix Model.Network Model.Bitmap Model.Spec Model.Field Model.Message Model.Terms.
+From Iso Require Import Model.Base Model.Sexp Model.Padding Model.Encoding Model.Prefix Model.Network Model.Bitmap Model.Spec Model.Field Model.Message Model.Json Model.MessageOps Model.Terms.
 
 Definition S' (s : string) : bytes := list_byte_of_string s.
 
@@ -207,6 +207,26 @@ Definition fld_op (s : fspec) (acc : outcome (fstate * list bytes)) (op : sexp) 
         | None => Err bad
         end
       else if bytes_eqb name (S' "note") then Ok (st, S' "ok" :: out)
+      else if bytes_eqb name (S' "fromjson") then
+        match parse_jdoc arg with
+        | Some d => match json_into s st d with
+                    | (st', Ok _) => Ok (st', S' "ok" :: out)
+                    | (st', Err _) => Ok (st', S' "err" :: out)
+                    | (_, Panic p) => Panic p
+                    | (_, OutOfFuel) => OutOfFuel
+                    end
+        | None => Err bad
+        end
+      else if bytes_eqb name (S' "unsetp") then
+        match as_hex arg with
+        | Some pth => match comp_unset_path s st (match pth with [] => [] | _ => split_path pth [] end) with
+                      | (st', Ok _) => Ok (st', S' "ok" :: out)
+                      | (st', Err _) => Ok (st', S' "err" :: out)
+                      | (_, Panic p) => Panic p
+                      | (_, OutOfFuel) => OutOfFuel
+                      end
+        | None => Err bad
+        end
       else if bytes_eqb name (S' "setbytes") then
         match as_hex arg with
         | Some d => match setbytes_f s st d with
@@ -224,6 +244,7 @@ Definition fld_op (s : fspec) (acc : outcome (fstate * list bytes)) (op : sexp) 
         | OutOfFuel => OutOfFuel
         end
       else if bytes_eqb name (S' "get") then Ok (st, show_val st :: out)
+      else if bytes_eqb name (S' "json") then Ok (st, show_hex (json_field st) :: out)
       else if bytes_eqb name (S' "reset") then Ok (fresh s, S' "ok" :: out)
       else Err bad
   | _ => Err bad
@@ -295,6 +316,26 @@ Definition msg_op (S : mspec) (acc : outcome (mstate * list bytes)) (op : sexp) 
         | None => Err bad
         end
       else if bytes_eqb name (S' "note") then Ok (m, S' "ok" :: out)
+      else if bytes_eqb name (S' "fromjson") then
+        match parse_jdoc arg with
+        | Some (JO kvs) => match m_from_json S m kvs with
+                           | (m', Ok _) => Ok (m', S' "ok" :: out)
+                           | (m', Err _) => Ok (m', S' "err" :: out)
+                           | (_, Panic p) => Panic p
+                           | (_, OutOfFuel) => OutOfFuel
+                           end
+        | _ => Err bad
+        end
+      else if bytes_eqb name (S' "unsetp") then
+        match as_hex arg with
+        | Some pth => match m_unset_path S m pth with
+                      | (m', Ok _) => Ok (m', S' "ok" :: out)
+                      | (m', Err _) => Ok (m', S' "err" :: out)
+                      | (_, Panic p) => Panic p
+                      | (_, OutOfFuel) => OutOfFuel
+                      end
+        | None => Err bad
+        end
       else if bytes_eqb name (S' "unset") then
         match as_int arg with
         | Some id => Ok (m_unset S m id, S' "ok" :: out)
@@ -310,6 +351,28 @@ Definition msg_op (S : mspec) (acc : outcome (mstate * list bytes)) (op : sexp) 
         | (_, OutOfFuel) => OutOfFuel
         end
       else if bytes_eqb name (S' "get") then Ok (m, show_present S m :: out)
+      else if bytes_eqb name (S' "json") then
+        match m_json S m with
+        | (m', Ok j) => Ok (m', (S' "ok " ++ show_hex j) :: out)
+        | (m', Err _) => Ok (m', S' "err" :: out)
+        | (_, Panic p) => Panic p
+        | (_, OutOfFuel) => OutOfFuel
+        end
+      else if bytes_eqb name (S' "clone") then
+        (* continue on the clone; the original is observed through (cloneorig) *)
+        match m_clone S m with
+        | (m', Ok c) => Ok (c, (S' "ok " ++ show_present S c) :: out)
+        | (m', Err _) => Ok (m', S' "err" :: out)
+        | (_, Panic p) => Panic p
+        | (_, OutOfFuel) => OutOfFuel
+        end
+      else if bytes_eqb name (S' "cloneorig") then
+        match m_clone S m with
+        | (m', Ok c) => Ok (m', (S' "ok " ++ show_present S c) :: out)
+        | (m', Err _) => Ok (m', S' "err" :: out)
+        | (_, Panic p) => Panic p
+        | (_, OutOfFuel) => OutOfFuel
+        end
       else if bytes_eqb name (S' "bitmap") then let m' := m_bitmap S m in Ok (m', show_hex (m_bm m') :: out)
       else Err bad
   | _ => Err bad
